@@ -236,9 +236,6 @@ def mc_judge(ctx, r, out, stats):
 
 
 def mc_stage(ctx, vh):
-    ok, log = common.coq_make(["theories/Corr/CheckMultiClient.vo"])
-    if not ok:
-        raise common.BuildError("Corr/CheckMultiClient.v does not build:\n" + log[-3000:])
     # the name table of the driver and the one of the checker must be the same table
     tab = common.coq_eval("c14nm", MC_IMPORTS, ["bytes_eqb (nm %d) %s" % (k, coq_str(s)) for k, s in enumerate(mc.NM)])
     if tab != ["true"] * len(mc.NM):
@@ -343,26 +340,31 @@ def run_vnum(exe, cases):
 
 
 def run(ctx):
+    import concurrent.futures
     import time
     t0 = time.time()
-    proof = common.proof_stage(ctx)
-    t1 = time.time()
-    vh = common.build_harness()
-    vh_rel = build_harness_release()
-    common.log("C14: proof stage %.0f s, harness builds %.0f s" % (t1 - t0, time.time() - t1))
-    ok, log = common.coq_make(["theories/Corr/CheckVnum.vo"])
+    # the three cargo builds (usually no-ops) run beside the proof stage
+    with concurrent.futures.ThreadPoolExecutor(max_workers=2) as ex:
+        f_h = ex.submit(lambda: (common.build_harness(), build_harness_release()))
+        f_r = ex.submit(common.build_rocfl_release)
+        proof = common.proof_stage(ctx)
+        t1 = time.time()
+        vh, vh_rel = f_h.result()
+        f_r.result()
+    common.log("C14: proof stage %.0f s, waited %.0f s more for the builds" % (t1 - t0, time.time() - t1))
+    ok, log = common.coq_make(["theories/Corr/CheckVnum.vo", "theories/Corr/CheckMultiClient.vo"])
     if not ok:
-        raise common.BuildError("Corr/CheckVnum.v does not build:\n" + log[-3000:])
+        raise common.BuildError("Corr/CheckVnum.v / CheckMultiClient.v do not build:\n" + log[-3000:])
 
     cases = gen_vnum_cases(ctx)
     stats = {"next": 0, "prev": 0, "display": 0, "parse": 0, "ok": 0, "err": 0, "panic": 0,
              "former_overflow_class_inputs": 0}
     nviol = 0
-    for dbg, exe in ((True, vh), (False, vh_rel)):
-        outs = run_vnum(exe, cases)
-        res = common.coq_eval("c14", ["Base.Bytes", "Model.VersionNum", "Corr.CheckVnum"],
-                              [vnum_term(c, o, dbg) for c, o in zip(cases, outs)])
-        build = "debug" if dbg else "release"
+    runs = [(True, "debug", run_vnum(vh, cases)), (False, "release", run_vnum(vh_rel, cases))]
+    allres = common.coq_eval("c14", ["Base.Bytes", "Model.VersionNum", "Corr.CheckVnum"],
+                             [vnum_term(c, o, dbg) for dbg, _, outs in runs for c, o in zip(cases, outs)])
+    for k, (dbg, build, outs) in enumerate(runs):
+        res = allres[k * len(cases):(k + 1) * len(cases)]
         for c, o, r in zip(cases, outs, res):
             stats[c["op"]] += 1
             stats["ok" if "ok" in o else "panic" if "panic" in o else "err"] += 1
@@ -381,6 +383,7 @@ def run(ctx):
                 # model and implementation disagree although the property holds on this input
                 common.corr_break(ctx, "Corr.CheckVnum case (model VersionNum.v vs types.rs, %s build)" % build,
                                   {"input": small, "observed": oshort})
+    common.log("C14: VersionNum stage done at %.0f s" % (time.time() - t0))
     n_mc = mc_stage(ctx, vh)
     ctx.coverage["traces_validated_against_impl"] = 2 * len(cases) + n_mc
     ctx.coverage["distribution"] = stats
